@@ -304,6 +304,7 @@ def run(ctx):
     ctx.rng.shuffle(jobs)
     for n, j in enumerate(jobs):
         j["omit_empty"] = (n % 2 == 1)        # every other history: an empty section is left out of the file altogether
+        j["xr_rules"] = (n % 3 == 0)          # every third history: iauth_class with one xreply_ok rule per service name
     jobs += make_sanity_jobs(jobs)
     res_s = RR.replay_svc(ctx, jobs, nproc=plan["nproc"])
     pre_modes = ["idle", "done", "pending"]
